@@ -3,6 +3,7 @@ from common import TB_COMMON
 
 PROP = {
     'lean_modules': ['CapyV.Props.C25'],
+    'needs_cli': True,
     'level': 'proof',
     "trusted_base": TB_COMMON + [   'std slice::partition_point contract (returns the size of the true prefix of a partitioned slice); its '
     'precondition is the theorem lineStarts_strictMono',
